@@ -109,6 +109,10 @@ def designed_histories():
     hs.append(("unseg other apid", H([(A, F, 1), (B, U, 9), (A, L, 2)])))
     hs.append(("orphan C then L", H([(A, C, 1), (A, L, 2)])))
     hs.append(("two groups", H([(A, F, 1), (A, L, 2), (A, F, 3), (A, C, 4), (A, L, 5)])))
+    # later members whose data field is as long as / shorter than / one byte longer than the secondary header
+    for n in (1, 2, 3):
+        hs.append((f"later members with {n}-byte data fields",
+                   [(A, F, 1, b"\x10\x11\x12\x13"), (A, C, 2, bytes(range(0x20, 0x20 + n))), (A, L, 3, bytes(range(0x30, 0x30 + n)))]))
     return hs
 
 
@@ -194,6 +198,45 @@ def run_history(prog, fi, history, shb: int, combine: bool = True):
     return steps
 
 
+def run_two_streams(prog, fi, h1, h2):
+    """Outputs per step of the second stream when the same definition object first ran the first stream."""
+    selfv = Obj("XtcePacketDefinition", root_container_name="ROOT")
+    try:
+        init = prog.resolve_method("XtcePacketDefinition", "__init__")
+    except Exception:
+        init = None
+    cur = {"parsed": [], "warn": 0}
+
+    def parse_stub(s_, packet, root_container_name=None):
+        raw = packet.attrs["raw_data"]
+        cur["parsed"].append(bytes(raw))
+        raw.attrs["pos"] = 8 * len(raw)
+        return packet
+    it = make_interp(prog, {"XtcePacketDefinition.parse_ccsds_packet": parse_stub,
+                            "space_packet_parser.packets.ccsds_generator": lambda b, **k: b}, max_steps=400000)
+    it.on_event = lambda ev: cur.__setitem__("warn", cur["warn"] + 1) if ev[0] == "warn" else None
+    if init is not None:
+        try:
+            it.call(init, [selfv, []], {})          # the constructor may create per-definition state
+        except (Raised, Unsupported):
+            selfv = Obj("XtcePacketDefinition", root_container_name="ROOT")
+    selfv.attrs.setdefault("root_container_name", "ROOT")
+    mk = lambda h: [raw_packet(d, apid=a, flags=f, count=c) for a, f, c, d in h]  # noqa: E731
+    it.call(fi, [selfv, mk(h1)], {"combine_segmented_packets": True})
+    out = []
+    prev_p, prev_w = [], 0
+    for n in range(1, len(h2) + 1):
+        # replay stream 1 on a fresh clone is not possible (hidden state is the point): run prefixes on copies of the state
+        import copy
+        cur["parsed"], cur["warn"] = [], 0
+        s2 = Obj("XtcePacketDefinition", **{k: copy.deepcopy(v) if isinstance(v, (dict, list)) else v for k, v in selfv.attrs.items()})
+        it.steps = 0
+        it.call(fi, [s2, mk(h2[:n])], {"combine_segmented_packets": True})
+        out.append((cur["parsed"][len(prev_p):], cur["warn"] - prev_w > 0))
+        prev_p, prev_w = list(cur["parsed"]), cur["warn"]
+    return out
+
+
 def check(ctx: Ctx) -> None:
     prog = ctx.prog
     fi = prog.func(f"{DEF}::XtcePacketDefinition.packet_generator")
@@ -245,6 +288,25 @@ def check(ctx: Ctx) -> None:
                    where=where(fi, fi.node))
     except (Unsupported, Raised) as e:
         ctx.unknown("R12.off", f"{site0}::combine-off", str(e))
+
+    # state does not outlive a generator: a group left open by one stream must not be completed by the next one
+    try:
+        A = 7
+        h1 = [(A, F, 5, b"\x01\x02\x03\x04")]
+        h2 = [(A, C, 6, b"\x05\x06\x07\x08"), (A, L, 7, b"\x09\x0a\x0b\x0c"), (A, U, 8, b"\x0d\x0e")]
+        got = run_two_streams(prog, fi, h1, h2)
+        want = reference(h2, 0)
+        ctx.decide(got == want, "R12.gen", f"{site0}::two generators on one definition",
+                   "an unfinished group does not leak into the next generator",
+                   f"stream 1 ends with FIRST@{A}#5; a second generator of the same definition over CONT#6 LAST#7 UNSEG#8 hands the parser "
+                   f"{[[x.hex() for x in g[0]] for g in got]} (warned {[g[1] for g in got]}); the two orphans must be dropped with a warning",
+                   where=where(fi, fi.node))
+    except (Unsupported, Raised) as e:
+        ctx.unknown("R12.gen", f"{site0}::two generators on one definition", str(e))
+    # ... and structurally: the generator keeps its table in a fresh local (effect analysis)
+    from ..callgraph import CallGraph
+    from .c11 import effect_rule
+    ctx.guard("R12.state", fi.key, effect_rule, ctx, CallGraph(prog), [fi.key], "R12.state", "segment combining")
 
     # R12.4 structural: any modulus applied in the continuity test is 2**14 (width of the sequence count field)
     mods = []
@@ -343,7 +405,7 @@ SPEC = PropSpec(
     title="Segmented packets are reassembled per APID exactly once and only when complete",
     check=check,
     sweep=sweep,
-    floors={"R12.1": 150, "R12.off": 1, "R12.4": 1},
+    floors={"R12.1": 150, "R12.off": 1, "R12.4": 1, "R12.gen": 1, "R12.state": 1},
     explanation=("Decision table of the segment-combining state machine, obtained by abstract interpretation of the "
                  "source of XtcePacketDefinition.packet_generator (framer and parser stubbed, model packets built by "
                  "the checker's own CCSDS packer): designed histories reach every abstract table state "
